@@ -52,6 +52,23 @@ pub fn sfs_onto_stale_file(ctx: &Ctx, args: &[&str], stdin: &[u8], tag: &str) ->
     (Run { code: r.code, stdout: bytes, stderr: r.stderr }, left)
 }
 
+/// IN PLACE: the input is stored at PATH, given by path, and `-o PATH` names the same file.  What PATH holds afterwards is
+/// returned as `stdout`.
+pub fn sfs_in_place(ctx: &Ctx, args: &[&str], input: &[u8], tag: &str) -> (Run, bool) {
+    static SEQ: std::sync::atomic::AtomicU64 = std::sync::atomic::AtomicU64::new(0);
+    let k = SEQ.fetch_add(1, std::sync::atomic::Ordering::Relaxed);
+    let path = format!("{}/files/inplace_{}_{}_{k}.sfs", ctx.work, std::process::id(), tag);
+    std::fs::create_dir_all(format!("{}/files", ctx.work)).expect("mkdir");
+    std::fs::write(&path, input).expect("write input file");
+    let mut a: Vec<&str> = args.to_vec();
+    a.extend(["-o", &path, &path]);
+    let r = sfs(ctx, &a, None);
+    let bytes = std::fs::read(&path).unwrap_or_default();
+    let _ = std::fs::remove_file(&path);
+    let left = !r.stdout.is_empty();
+    (Run { code: r.code, stdout: bytes, stderr: r.stderr }, left)
+}
+
 /// Like `sfs`, but the input arrives on a real pipe in two pieces: `first` bytes, a pause, the rest.
 pub fn sfs_delayed(ctx: &Ctx, args: &[&str], stdin: &[u8], first: usize) -> Run {
     let mut cmd = Command::new(&ctx.sfs_bin);
